@@ -42,7 +42,7 @@ Predict(r, p, q) ==
   ELSE IF a = "rename" THEN (IF has(r.id) THEN Rename(p, r.id, r.n) ELSE R(p, "ok"))
   ELSE IF a = "domain_rename" THEN R(DomainRename(p, r.dom), "ok")
   ELSE IF a = "delete" THEN R(Delete(p, {x \in p.ids : p.lv[x] = "live" /\ q.lv[x] = "recycled"}), "ok")
-  ELSE IF a = "revive" THEN (IF has(r.id) THEN Revive(p, r.id) ELSE R(p, "ok"))
+  ELSE IF a = "revive" THEN Revive(p, Range(r.ids))
   ELSE IF a \in {"set_desc", "set_emb", "clear_emb"} THEN R(mod(r.id), "ok")
   ELSE IF a \in {"add_member", "remove_member", "set_members"} THEN R(mod(r.g), "ok")
   ELSE R(p, "ok")
